@@ -404,6 +404,8 @@ impl<'a> LaxPacketHeaders<'a> {
                     }
                 };
                 result.net = Some(NetHeaders::Arp(arp));
+                // an arp packet has no payload
+                result.payload = LaxPayloadSlice::Empty;
                 return result;
             }
             _ => {}
